@@ -46,7 +46,10 @@ CONSTANTS
     MaxSessions,     \* sessions in total (>= 1)
     NormalExit,      \* TRUE: a finished session runs its exit handlers
     MaxWorkerKills,  \* beyond C16/C17: how many single worker processes may be killed (0 in every check of a property)
-    HeaderOnEmpty, OwnBuffer, HeaderNoClaim
+    HeaderOnEmpty, OwnBuffer, HeaderNoClaim,
+    SplitWrites,     \* environment: TRUE = a row reaches the output file in two pieces (a buffered write of a long
+                     \* row is several write(2) calls); between them the file ends with a torn line
+    StatWrongLock    \* hazard (never shipped): make_statistic takes the claim lock instead of the file lock
 
 None == 0           \* lock owners: None, MainId or a call id
 MainId == -1
@@ -59,6 +62,11 @@ Paths == {Out(a) : a \in AggSet} \cup {Buf(a) : a \in AggSet}
 Absent == [ex |-> FALSE, ls |-> <<>>]
 Range(s) == {s[i] : i \in 1..Len(s)}
 SubjectsOf(a) == {Calls[c].subj : c \in {d \in CallIds : Calls[d].agg = a /\ Calls[d].kind = "eval"}}
+\* the torn line a half-written row of subject s is
+Torn(s) == "~" \o s
+TornLines == {Torn(Calls[c].subj) : c \in CallIds}
+\* the complete lines of a file content
+Complete(ls) == SelectSeq(ls, LAMBDA x : x \notin TornLines)
 
 VARIABLES
     files,       \* [Paths -> [ex, ls]]
@@ -246,8 +254,18 @@ FOpen(c) ==
     /\ SetFile(Out(Ag(c)), TRUE, files[Out(Ag(c))].ls) /\ To(c, "fflush")
     /\ Op(c, "open_a_out") /\ UNCHANGED <<evalLock, fileLock, ids, snap>> /\ CallKeep
 FFlush(c) ==
-    /\ pc[c] = "fflush"
+    /\ pc[c] = "fflush" /\ ~SplitWrites
     /\ SetFile(Out(Ag(c)), TRUE, Append(files[Out(Ag(c))].ls, Sj(c))) /\ To(c, "frel")
+    /\ Op(c, "close_a_out") /\ UNCHANGED <<evalLock, fileLock, ids, snap>> /\ CallKeep
+\* the same append when the row goes out in two pieces: first a torn line, then the rest of it
+FPart(c) ==
+    /\ pc[c] = "fflush" /\ SplitWrites
+    /\ SetFile(Out(Ag(c)), TRUE, Append(files[Out(Ag(c))].ls, Torn(Sj(c)))) /\ To(c, "fflush2")
+    /\ Op(c, "part_out") /\ UNCHANGED <<evalLock, fileLock, ids, snap>> /\ CallKeep
+FFlush2(c) ==
+    /\ pc[c] = "fflush2"
+    /\ LET ls == files[Out(Ag(c))].ls IN SetFile(Out(Ag(c)), TRUE, Append(SubSeq(ls, 1, Len(ls) - 1), Sj(c)))
+    /\ To(c, "frel")
     /\ Op(c, "close_a_out") /\ UNCHANGED <<evalLock, fileLock, ids, snap>> /\ CallKeep
 FRel(c) ==
     /\ pc[c] = "frel"
@@ -258,9 +276,12 @@ FRel(c) ==
 (* make_statistic()                                                        *)
 (***************************************************************************)
 SAcq(c) ==
-    /\ pc[c] = "sacq" /\ fileLock = None
-    /\ fileLock' = c /\ To(c, "sopen")
-    /\ Op(c, "acq_file") /\ UNCHANGED <<files, evalLock, ids, snap>> /\ CallKeep
+    /\ pc[c] = "sacq"
+    /\ IF StatWrongLock
+       THEN evalLock = None /\ evalLock' = c /\ Op(c, "acq_eval") /\ UNCHANGED fileLock
+       ELSE fileLock = None /\ fileLock' = c /\ Op(c, "acq_file") /\ UNCHANGED evalLock
+    /\ To(c, "sopen")
+    /\ UNCHANGED <<files, ids, snap>> /\ CallKeep
 SOpen(c) ==
     /\ pc[c] = "sopen" /\ To(c, "sread")
     /\ Op(c, "open_r_out") /\ UNCHANGED <<files, evalLock, fileLock, ids, snap>> /\ CallKeep
@@ -270,8 +291,11 @@ SRead(c) ==
     /\ Op(c, "read_out") /\ UNCHANGED <<files, evalLock, fileLock, ids>> /\ CallKeep
 SRel(c) ==
     /\ pc[c] = "srel"
-    /\ fileLock' = None /\ To(c, "done")
-    /\ Op(c, "rel_file") /\ UNCHANGED <<files, evalLock, ids, snap>> /\ CallKeep
+    /\ IF StatWrongLock
+       THEN evalLock' = None /\ Op(c, "rel_eval") /\ UNCHANGED fileLock
+       ELSE fileLock' = None /\ Op(c, "rel_file") /\ UNCHANGED evalLock
+    /\ To(c, "done")
+    /\ UNCHANGED <<files, ids, snap>> /\ CallKeep
 
 (***************************************************************************)
 (* Beyond the listed properties: ONE worker process is killed (OOM killer, *)
@@ -289,7 +313,7 @@ KillOne(c) ==
     /\ Op(c, "killed") /\ UNCHANGED <<files, evalLock, fileLock, ids, snap>> /\ CallKeep
 
 Call(c) == \/ KillOne(c) \/ EAcq(c) \/ EOpenR(c) \/ ERelErr(c) \/ ERead(c) \/ ERelDup(c) \/ EOpenA(c) \/ EFlush(c) \/ ERel(c)
-           \/ ECompute(c) \/ FAcq(c) \/ FOpen(c) \/ FFlush(c) \/ FRel(c)
+           \/ ECompute(c) \/ FAcq(c) \/ FOpen(c) \/ FFlush(c) \/ FPart(c) \/ FFlush2(c) \/ FRel(c)
            \/ SAcq(c) \/ SOpen(c) \/ SRead(c) \/ SRel(c)
 
 (***************************************************************************)
@@ -353,13 +377,17 @@ Count(s, x) == Cardinality({i \in 1..Len(s) : s[i] = x})
 NoDupRows        == \A a \in AggSet : \A i, j \in 1..Len(Rows(a)) : (Rows(a)[i] = Rows(a)[j] /\ Rows(a)[i] # "H") => i = j
 HeaderFirstOnce  == \A a \in AggSet : (Len(Rows(a)) > 0 /\ ~(InitOut.ls # <<>> /\ InitOut.ls[1] # "H"))
                                           => (Rows(a)[1] = "H" /\ Count(Rows(a), "H") = 1)
-RowsAreSubjects  == \A a \in AggSet : \A i \in 1..Len(Rows(a)) : Rows(a)[i] = "H" \/ Rows(a)[i] \in SubjectsOf(a) \cup Range(InitOut.ls)
+RowsAreSubjects  == \A a \in AggSet : \A i \in 1..Len(Rows(a)) :
+                        \/ Rows(a)[i] = "H" \/ Rows(a)[i] \in SubjectsOf(a) \cup Range(InitOut.ls)
+                        \* a torn line only as the last line, while its writer is between the two pieces (holding the file lock)
+                        \/ (i = Len(Rows(a)) /\ \E c \in CallIds : pc[c] = "fflush2" /\ Ag(c) = a /\ fileLock = c /\ Rows(a)[i] = Torn(Sj(c)))
 \* a statistics snapshot only ever holds the header and complete rows of its own file
 SnapOnlyComplete == \A c \in CallIds : snap[c] # <<"?">> =>
                         \A i \in 1..Len(snap[c]) : snap[c][i] = "H" \/ snap[c][i] \in SubjectsOf(Ag(c)) \cup Range(InitOut.ls)
 LocksConsistent  == /\ evalLock \in {None, MainId} \cup CallIds /\ fileLock \in {None, MainId} \cup CallIds
                     /\ \A c \in CallIds : pc[c] \in {"openr", "relerr", "read", "reldup", "opena", "flush", "rel"} => evalLock = c
-                    /\ \A c \in CallIds : pc[c] \in {"fopen", "fflush", "frel", "sopen", "sread", "srel"} => fileLock = c
+                    /\ \A c \in CallIds : pc[c] \in {"fopen", "fflush", "fflush2", "frel"} => fileLock = c
+                    /\ \A c \in CallIds : pc[c] \in {"sopen", "sread", "srel"} => (IF StatWrongLock THEN evalLock = c ELSE fileLock = c)
 
 \* at the end of a session that was not killed: every submitted subject exactly once, header once,
 \* nothing of anybody else's - whatever happened in earlier sessions
@@ -371,11 +399,11 @@ ExactlyOnePerSubject ==
         /\ Range(Rows(a)) \subseteq {"H"} \cup SubjectsOf(a) \cup Range(InitOut.ls)
 NoCallFailed == \A c \in CallIds : pc[c] # "err"
 \* neighbouring aggregators: rows of one file are subjects submitted to that very aggregator
-SiblingsIndependent == \A a \in AggSet : Range(Rows(a)) \subseteq {"H"} \cup SubjectsOf(a) \cup Range(InitOut.ls)
+SiblingsIndependent == \A a \in AggSet : Range(Complete(Rows(a))) \subseteq {"H"} \cup SubjectsOf(a) \cup Range(InitOut.ls)
 
 \* rows already written are never altered or removed (action property)
-RowsAppendOnly == [][\A a \in AggSet : /\ Len(Rows(a)') >= Len(Rows(a))
-                                       /\ SubSeq(Rows(a)', 1, Len(Rows(a))) = Rows(a)]_vars
+RowsAppendOnly == [][\A a \in AggSet : LET old == Complete(Rows(a))  new == Complete(Rows(a)') IN
+                                       /\ Len(new) >= Len(old) /\ SubSeq(new, 1, Len(old)) = old]_vars
 
 \* the hazard of a single killed worker: a lock it held is orphaned, and every other call that needs
 \* it waits forever (both are FALSE in the shipped design as soon as MaxWorkerKills > 0)
